@@ -15,10 +15,9 @@ ID = 'C15'
 TARGETS = ['MindsVerif.Props.C15']
 _T = 'MindsVerif.Props.C15.'
 THEOREMS = [_T + n for n in (
-    'C15_rows', 'C15_rows_tc', 'C15_partitions', 'C15_otf_partial', 'C15_otf_eq', 'C15_limit_partial',
-    'C15_reject_flags', 'C15_decision', 'C15_reject_where_partial', 'C15_validate_iff', 'C15_no_crash_partial',
-    'C15_witness_1', 'C15_witness_2', 'C15_witness_3', 'C15_witness_4', 'C15_witness_5', 'C15_witness_6',
-    'C15_full_false')]
+    'C15_rows', 'C15_rows_tc', 'C15_partitions', 'C15_otf_partial', 'C15_otf_eq', 'C15_limit',
+    'C15_reject_flags', 'C15_decision', 'C15_reject_where_partial', 'C15_validate_iff', 'C15_no_crash',
+    'C15_witness_1', 'C15_witness_3', 'C15_witness_4', 'C15_witness_6', 'C15_full_false')]
 ASSUME = [
     'plan_timeseries_predictor / ts_utils are hand-modelled (MindsVerif.TS.planTS); tie = plan correspondence stream (exact WHERE trees of every generated select)',
     'row semantics of the model (three-valued WHERE, ORDER BY t DESC as a stable sort of an arbitrary physical order, LIMIT) is tied to sqlite3 3.40 by the eval stream; sqlite3 is a reference engine, not part of a theorem',
@@ -730,8 +729,8 @@ def run(chk):
         chk.samples.append(dict(sql=case['sql'], nG=case['nG'], window=case['window'], impl=line[:400]))
     chk.samples.append(dict(theorem='C15_rows: ∀ m q tc, plain q → Dom m.nG tc q.whereC → ∃ pl, planTS m q = ok pl ∧ ∀ p T, '
                             '∃ L, WindowSpec m.window p m.nG tc q.whereC T L ∧ (fetched p T pl.selects).Perm (condRows … T ++ L)'))
-    chk.samples.append(dict(theorem='C15_otf_partial / C15_limit_partial / C15_reject_where_partial / C15_no_crash_partial: '
-                            'T15.2, T15.3 outside the witnessed classes (t = c; LIMIT 0; hidden columns; bare AND operand)'))
+    chk.samples.append(dict(theorem='C15_otf_partial / C15_limit / C15_reject_where_partial / C15_no_crash: '
+                            'T15.2, T15.3 outside the witnessed classes (t = c; hidden columns); LIMIT and crash-freeness unconditional'))
     return chk.finish(assumptions=ASSUME)
 
 
